@@ -47,24 +47,37 @@ def tasks(tier, seed):
                 if M > 5:  # (on intervals shorter than 1e-5 the qmat generator merges nodes closer than 1e-8 to an end point with it -- the defect recorded for large offsets; with M <= 5 all nodes stay clear of that)
                     ivs = [iv for iv in ivs if iv[1] - iv[0] >= 1e-5]
                 T.append(('coll', nt, qt, M, ivs))
+    # the collocation object a SWEEPER builds from its parameters (tleft / tright are forwarded): the object the library actually works with
+    for nt in NODE_TYPES:
+        for qt in QUAD_TYPES:
+            for M in ((2, 3) if quick else (2, 3, 5)):
+                T.append(('coll', nt, qt, M, [(-3.0, -1.0), (-0.7, 0.3), (1.1, 5.3), (0.0, 0.001), (-1.0, 7.0), (0.0, 1.0)], 'sweeper'))
     return T
 
 
 def run_task(rep, task):
-    _, nt, qt, M, intervals = task
-    ref = None
+    _, nt, qt, M, intervals = task[:5]
+    via = task[5] if len(task) > 5 else 'direct'
     for (tl, tr) in intervals:
-        coll_case(rep, nt, qt, M, tl, tr)
+        coll_case(rep, nt, qt, M, tl, tr, via)
 
 
 def box(vs):
     return [z3.And(v >= -1, v <= 1) for v in vs]
 
 
-def coll_case(rep, nt, qt, M, tl, tr):
-    name = f'{nt}/{qt}/M{M}/[{tl:.6g},{tr:.6g}]'
+def make_coll(M, tl, tr, nt, qt, via='direct'):
+    if via == 'sweeper':
+        from pySDC.implementations.sweeper_classes.generic_implicit import generic_implicit
+
+        return generic_implicit({'num_nodes': M, 'quad_type': qt, 'node_type': nt, 'tleft': tl, 'tright': tr, 'QI': 'IE'}, None).coll
+    return CollBase(M, tl, tr, node_type=nt, quad_type=qt)
+
+
+def coll_case(rep, nt, qt, M, tl, tr, via='direct'):
+    name = f'{nt}/{qt}/M{M}/[{tl:.6g},{tr:.6g}]' + ('/held-by-a-sweeper' if via == 'sweeper' else '')
     try:
-        c = CollBase(M, tl, tr, node_type=nt, quad_type=qt)
+        c = make_coll(M, tl, tr, nt, qt, via)
         ref = CollBase(M, 0, 1, node_type=nt, quad_type=qt)
     except Exception as e:
         rep.extra['not_constructible'] = rep.extra.get('not_constructible', 0) + 1
@@ -124,9 +137,9 @@ def coll_case(rep, nt, qt, M, tl, tr):
         conf = structural + [b for b in confirm(c, tl, tr, qt, M) if b not in structural]
         if conf:
             snapped = (abs(tl) >= 100 * (tr - tl)) and ('end-point-membership' in conf or 'weights-exactness' in conf)
-            key = f'{PID}/large-offset-node-snapping' if snapped else f'{PID}/{conf[0]}/{nt}/{qt}'
-            rep.violation(key, f'CollBase({M}, {tl!r}, {tr!r}, node_type={nt!r}, quad_type={qt!r}): {conf}; nodes {c.nodes.tolist()}',
-                          {'task': ['coll', nt, qt, M, [tl, tr]], 'violated': conf, 'nodes': c.nodes.tolist(), 'weights': c.weights.tolist()})
+            key = f'{PID}/large-offset-node-snapping' if snapped else f'{PID}/{conf[0]}/{nt}/{qt}' + ('/held-by-a-sweeper' if via == 'sweeper' else '')
+            rep.violation(key, ('collocation object of generic_implicit with the parameters of ' if via == 'sweeper' else '') + f'CollBase({M}, {tl!r}, {tr!r}, node_type={nt!r}, quad_type={qt!r}): {conf}; nodes {c.nodes.tolist()}',
+                          {'task': ['coll', nt, qt, M, [tl, tr], via], 'violated': conf, 'nodes': c.nodes.tolist(), 'weights': c.weights.tolist()})
         else:
             rep.unreproduced(name, bad)
     rep.sample({'case': name, 'order': p_ord, 'free': 'polynomial coefficients in the unit box'}, limit=5)
@@ -163,7 +176,7 @@ def confirm(c, tl, tr, qt, M):
 def replay(path):
     d = json.load(open(path))['replay']
     t = d['task']
-    c = CollBase(t[3], t[4][0], t[4][1], node_type=t[1], quad_type=t[2])
+    c = make_coll(t[3], t[4][0], t[4][1], t[1], t[2], t[5] if len(t) > 5 else 'direct')
     bad = confirm(c, t[4][0], t[4][1], t[2], t[3])
     print('nodes', c.nodes.tolist(), 'violated', bad)
     print('REPRODUCED' if bad else 'not reproduced')
